@@ -3,6 +3,8 @@ package ksim
 import (
 	"encoding/json"
 	"fmt"
+	corev1 "k8s.io/api/core/v1"
+	metav1 "k8s.io/apimachinery/pkg/apis/meta/v1"
 	"math"
 	"reflect"
 	"strings"
@@ -103,6 +105,20 @@ func (s *Sim) exposure(obj client.Object) (e, n int, ok bool) {
 		if w.Spec.Paused {
 			return 0, n, true
 		}
+		if w.Annotations[v1beta1.OriginalDeploymentStrategyAnnotation] != "" && controlledByUID(w) != "" {
+			// blue-green in progress: new pods never become available (minReadySeconds = max) and maxUnavailable is 0,
+			// so the native controller creates exactly maxSurge new pods and removes no old one
+			if ru := w.Spec.Strategy.RollingUpdate; ru != nil && ru.MaxSurge != nil {
+				e = scaled(ru.MaxSurge, n, true, 0)
+				if w.Spec.MinReadySeconds < v1beta1.MaxReadySeconds || (ru.MaxUnavailable != nil && scaled(ru.MaxUnavailable, n, false, 0) > 0) {
+					return n, n, true // not protected: the native controller may replace everything
+				}
+				if e > n {
+					e = n
+				}
+				return e, n, true
+			}
+		}
 		return n, n, true
 	}
 	return 0, 0, false
@@ -180,6 +196,22 @@ func (o *coreOracle) OnWrite(s *Sim, w *Write) {
 		o.checkScaleExposure(s, w)
 	case w.Key.GK == gkRollout && w.New != nil && w.Old != nil && w.Actor == "rollout-ctrl":
 		o.checkRolloutStatus(s, w)
+	case w.Key.GK == gkPod && w.Old == nil && w.New != nil && strings.HasSuffix(o.sc.Family, "bluegreen"):
+		// C10 R3: a blue-green release refuses supersession instead of mixing three versions
+		imgs := map[string]bool{}
+		for _, k := range s.Store.keys {
+			if k.GK != gkPod || !o.sc.owns(k) {
+				continue
+			}
+			p := s.Store.objs[k].(*corev1.Pod)
+			if p.DeletionTimestamp == nil && len(p.Spec.Containers) > 0 {
+				imgs[p.Spec.Containers[0].Image] = true
+			}
+		}
+		s.probe("c10.bluegreen-pod-creations")
+		if len(imgs) >= 3 {
+			s.Violate("C10", "R3-three-versions", "R3/"+o.sc.Family, w.Seq, "blue-green release: pods of %d different versions run at the same time after pod %s was created", len(imgs), w.Key.Name)
+		}
 	case w.Key.GK == gkBR && w.New != nil:
 		if w.Actor == "rollout-ctrl" {
 			o.checkBRSpecWrite(s, w)
@@ -268,7 +300,21 @@ func (o *coreOracle) checkScaleExposure(s *Sim, w *Write) {
 	}
 	s.probe("c01.scale-writes")
 	if allow := planned(plan.Batches[b].CanaryReplicas, nA) + slack(nA); eA > allow {
-		s.Violate("C01", "E4-scale", fmt.Sprintf("E4/%s/excess=%d", o.sc.Family, min(eA-allow, 2)), w.Seq, "scaling %s from %d to %d replicas lets %d pods update while the current step %s allows %d of %d: the update setting left by the controllers does not scale with the workload",
+		// which kind of knob was left on the workload: a percentage is at least meant to scale (its rounding does not),
+		// an absolute number cannot
+		knob := "abs"
+		switch x := w.New.(type) {
+		case *kruisev1alpha1.CloneSet:
+			if p := x.Spec.UpdateStrategy.Partition; p != nil && p.Type == intstr.String {
+				knob = "pct"
+			}
+		case *appsv1.Deployment:
+			st := v1alpha1.DeploymentStrategy{}
+			if json.Unmarshal([]byte(x.Annotations[v1alpha1.DeploymentStrategyAnnotation]), &st) == nil && st.Partition.Type == intstr.String {
+				knob = "pct"
+			}
+		}
+		s.Violate("C01", "E4-scale", fmt.Sprintf("E4/%s/%s/excess=%d", o.sc.Family, knob, min(eA-allow, 2)), w.Seq, "scaling %s from %d to %d replicas lets %d pods update while the current step %s allows %d of %d: the update setting left by the controllers does not scale with the workload",
 			w.Key, nB, nA, eA, plan.Batches[b].CanaryReplicas.String(), allow, nA)
 	}
 }
@@ -616,11 +662,25 @@ func (o *coreOracle) checkBRStatusWrite(s *Sim, w *Write) {
 			}
 			// where the policy is to wait (canary-style Deployment, waitResume): every pod is updated, on every attempt.
 			// Authoritative store: nothing the controller can have read is fresher, and updated pods do not turn back.
-			if d, ok := wl.(*appsv1.Deployment); ok && rd.Spec.ReleasePlan.FinalizingPolicy == v1beta1.WaitResumeFinalizingPolicyType &&
-				(rd.Spec.ReleasePlan.RollingStyle == v1beta1.CanaryRollingStyle || rd.Spec.ReleasePlan.EnableExtraWorkloadForCanary) && rd.Spec.ReleasePlan.BatchPartition == nil {
+			canaryWait := rd.Spec.ReleasePlan.FinalizingPolicy == v1beta1.WaitResumeFinalizingPolicyType && (rd.Spec.ReleasePlan.RollingStyle == v1beta1.CanaryRollingStyle || rd.Spec.ReleasePlan.EnableExtraWorkloadForCanary)
+			// blue-green finalisation of a Deployment always waits for all pods ("wait all pods updated and ready")
+			bgWait := rd.Spec.ReleasePlan.RollingStyle == v1beta1.BlueGreenRollingStyle
+			if d, ok := wl.(*appsv1.Deployment); ok && (canaryWait || bgWait) && rd.Spec.ReleasePlan.BatchPartition == nil {
 				s.probe("c11.completed-waitresume")
-				if d.Status.ObservedGeneration == d.Generation && d.Status.UpdatedReplicas != d.Status.Replicas && !strings.Contains(s.firedEvents(), "scale") {
-					s.Violate("C11", "B3-completed", "B3/wait/"+fam, w.Seq, "BatchRelease (policy waitResume) reported Completed while Deployment %s has %d of %d pods updated", ref.Name, d.Status.UpdatedReplicas, d.Status.Replicas)
+				// pods of old ReplicaSets still around = not every pod is updated (authoritative, independent of status lag)
+				oldPods, allPods := 0, 0
+				for _, k := range s.Store.Keys(gkRS) {
+					rs := s.Store.Peek(k).(*appsv1.ReplicaSet)
+					if r := metav1.GetControllerOf(rs); r == nil || r.UID != d.UID || rs.DeletionTimestamp != nil {
+						continue
+					}
+					allPods += int(rs.Status.Replicas)
+					if !rutil.EqualIgnoreHash(&rs.Spec.Template, &d.Spec.Template) {
+						oldPods += int(rs.Status.Replicas)
+					}
+				}
+				if oldPods > 0 && !strings.Contains(s.firedEvents(), "scale") {
+					s.Violate("C11", "B3-completed", "B3/wait/"+fam, w.Seq, "BatchRelease (waiting policy) reported Completed while Deployment %s still runs %d of %d pods on old ReplicaSets", ref.Name, oldPods, allPods)
 				}
 			}
 		}
@@ -647,6 +707,24 @@ func (o *coreOracle) batchNotReady(s *Sim, rd *v1beta1.BatchRelease, b int) stri
 				return "" // with duplicated canary Deployments (C06 A1) it is undefined which one the controller looks at
 			}
 			updated, ready = int(canary.Status.Replicas), int(canary.Status.AvailableReplicas)
+		} else if style == v1beta1.BlueGreenRollingStyle {
+			// blue-green: updated pods are those of the new ReplicaSet; ready ones are its ready replicas, as this reconcile listed them
+			updated = int(wl.Status.UpdatedReplicas)
+			ready = -1
+			if t := s.cur; t != nil {
+				for k, rr := range t.LastRead {
+					if k.GK != gkRS || !rr.Found {
+						continue
+					}
+					rs := rr.Obj.(*appsv1.ReplicaSet)
+					if ref := metav1.GetControllerOf(rs); ref != nil && ref.UID == wl.UID && rs.DeletionTimestamp == nil && rutil.EqualIgnoreHash(&rs.Spec.Template, &wl.Spec.Template) {
+						ready = int(rs.Status.ReadyReplicas)
+					}
+				}
+			}
+			if ready < 0 {
+				return ""
+			}
 		} else {
 			updated = int(wl.Status.UpdatedReplicas)
 			es := v1alpha1.DeploymentExtraStatus{}
@@ -661,7 +739,7 @@ func (o *coreOracle) batchNotReady(s *Sim, rd *v1beta1.BatchRelease, b int) stri
 	}
 	s.probe("c11.ready-evaluations")
 	want := planned(plan.Batches[b].CanaryReplicas, n)
-	if _, isDep := stable.(*appsv1.Deployment); isDep && style != v1beta1.CanaryRollingStyle && !plan.EnableExtraWorkloadForCanary && style != v1beta1.BlueGreenRollingStyle {
+	if _, isDep := stable.(*appsv1.Deployment); isDep && style != v1beta1.CanaryRollingStyle && !plan.EnableExtraWorkloadForCanary {
 		// documented meaning of a percentage partition on a Deployment: below 100% it never demands the last pod
 		if plan.Batches[b].CanaryReplicas.Type == intstr.String && plan.Batches[b].CanaryReplicas.StrVal != "100%" && n > 1 && want > n-1 {
 			want = n - 1
@@ -799,6 +877,10 @@ func (o *coreOracle) OnEnd(s *Sim) {
 	case ro.Status.Phase == v1beta1.RolloutPhaseProgressing && reason == v1alpha1.ProgressingReasonInRolling && sub != nil &&
 		sub.CurrentStepState == v1beta1.CanaryStepStatePaused && !sc.AutoApprove:
 		waiting = "manual approval"
+	}
+	if strings.HasSuffix(sc.Family, "bluegreen") && strings.Contains(s.firedEvents(), "release-v3") && ro.Status.Phase == v1beta1.RolloutPhaseProgressing {
+		// documented: a blue-green release refuses a newer revision and waits for the user to roll back first
+		waiting = "blue-green release refuses supersession; waiting for the user's rollback"
 	}
 	for i := range sc.Events {
 		if !sc.Events[i].Done && sc.Events[i].After != "" && o.sc.user.doneKinds[sc.Events[i].After] {
